@@ -86,6 +86,39 @@ def computeError (F : FTy) (q : Int) (w : Nat) : AlgoRes :=
 def fpZero : ExtendedFloat80 := { mant := 0, exp := 0 }
 def fpInf (F : FTy) : ExtendedFloat80 := { mant := 0, exp := F.C.infinitePower }
 
+/-- second half of `compute_float`: from the product words `(lo, hi)` to the rounded float
+(split off only so that proofs can name it; the Rust has one function) -/
+def cfRound (F : FTy) (q : Int) (lo hi lz : Nat) : AlgoRes :=
+  let upperbit := shr hi 63
+  let sh := upperbit + 64 - F.ms - litPrecisionExtra
+  let mantissa := shr hi sh
+  let power2 : Int := power (wrapI32 q) + upperbit - lz - F.C.minimumExponent
+  if power2 ≤ 0 then
+    if -power2 + 1 ≥ litSubnormalLimit then .ok fpZero
+    else
+      -- subnormal
+      let mantissa := shr mantissa (-power2 + 1).toNat
+      let mantissa := wrap64 (mantissa + mantissa % 2)
+      let mantissa := shr mantissa 1
+      let power2 : Int := if mantissa ≥ shl64 1 F.ms then 1 else 0
+      .ok { mant := mantissa, exp := power2 }
+  else
+    let mantissa :=
+      if lo ≤ litTieLo && decide (q ≥ F.C.minExponentRoundToEven) && decide (q ≤ F.C.maxExponentRoundToEven)
+          && mantissa % (litTieMask + 1) == litTieVal && shl64 mantissa sh == hi
+      then mantissa - mantissa % 2        -- `mantissa &= !1`
+      else mantissa
+    let mantissa := wrap64 (mantissa + mantissa % 2)
+    let mantissa := shr mantissa 1
+    -- rounding up overflowed: mantissa = hidden bit only, exponent + 1
+    let carry : Bool := decide (mantissa ≥ shl64 2 F.ms)
+    let mantissa := if carry then shl64 1 F.ms else mantissa
+    let power2 := if carry then power2 + 1 else power2
+    -- `mantissa &= !(1 << MANTISSA_SIZE)`
+    let mantissa := mantissa - (mantissa / 2 ^ F.ms % 2) * 2 ^ F.ms
+    if power2 ≥ F.C.infinitePower then .ok (fpInf F)
+    else .ok { mant := mantissa, exp := power2 }
+
 /-- `compute_float::<F>(q, w, lossy)` -/
 def computeFloat (F : FTy) (q : Int) (w : Nat) (lossy : Bool) : AlgoRes :=
   if w = 0 ∨ q < F.C.smallestPowerOfTen then .ok fpZero
@@ -98,34 +131,7 @@ def computeFloat (F : FTy) (q : Int) (w : Nat) (lossy : Bool) : AlgoRes :=
     | some (lo, hi) =>
       if !lossy && lo == litAllOnes && !(decide (litSafeLo ≤ q) && decide (q ≤ litSafeHi)) then
         .ok (computeErrorScaled F q hi lz)
-      else
-        let upperbit := shr hi 63
-        let sh := upperbit + 64 - F.ms - litPrecisionExtra
-        let mantissa := shr hi sh
-        let power2 : Int := power (wrapI32 q) + upperbit - lz - F.C.minimumExponent
-        if power2 ≤ 0 then
-          if -power2 + 1 ≥ litSubnormalLimit then .ok fpZero
-          else
-            -- subnormal
-            let mantissa := shr mantissa (-power2 + 1).toNat
-            let mantissa := wrap64 (mantissa + mantissa % 2)
-            let mantissa := shr mantissa 1
-            let power2 : Int := if mantissa ≥ shl64 1 F.ms then 1 else 0
-            .ok { mant := mantissa, exp := power2 }
-        else
-          let mantissa :=
-            if lo ≤ litTieLo && decide (q ≥ F.C.minExponentRoundToEven) && decide (q ≤ F.C.maxExponentRoundToEven)
-                && mantissa % (litTieMask + 1) == litTieVal && shl64 mantissa sh == hi
-            then mantissa - mantissa % 2        -- `mantissa &= !1`
-            else mantissa
-          let mantissa := wrap64 (mantissa + mantissa % 2)
-          let mantissa := shr mantissa 1
-          let (mantissa, power2) :=
-            if mantissa ≥ shl64 2 F.ms then (shl64 1 F.ms, power2 + 1) else (mantissa, power2)
-          -- `mantissa &= !(1 << MANTISSA_SIZE)`
-          let mantissa := mantissa - (mantissa / 2 ^ F.ms % 2) * 2 ^ F.ms
-          if power2 ≥ F.C.infinitePower then .ok (fpInf F)
-          else .ok { mant := mantissa, exp := power2 }
+      else cfRound F q lo hi lz
 
 /-- `lemire::<F>(num, lossy)`: the two-pass wrapper for truncated mantissas -/
 def lemire (F : FTy) (n : Num) (lossy : Bool) : AlgoRes :=
